@@ -111,7 +111,9 @@ func (o *Origin) handle(oc *OConn) {
 			return
 		}
 		c.SetDeadline(time.Time{})
-		oc.C = tc
+		oc.mu.Lock()
+		oc.C = tc // (Close of the Origin reads it from another goroutine)
+		oc.mu.Unlock()
 		c = tc
 	}
 	defer func() {
@@ -241,7 +243,10 @@ func (o *Origin) Close() {
 	}
 	o.L.Close()
 	for _, oc := range o.Conns() {
-		oc.C.Close()
+		oc.mu.Lock()
+		c := oc.C
+		oc.mu.Unlock()
+		c.Close()
 	}
 }
 
